@@ -142,7 +142,7 @@ pub fn worker(w: &mut Worker) {
             }
             let cj = json!({"kind": "run", "name": name, "form": form, "script": text});
             w.begin(|| cj.clone());
-            let file = dir.join(format!("{}.ds", name));
+            let file = dir.join(format!("{} script.ds", name));
             let fs = file.to_string_lossy().to_string();
             let (d, l) = if form == "file" {
                 std::fs::write(&file, &text).expect("write script");
